@@ -395,6 +395,12 @@ func c09historyCase(c *vf.Ctx, i int) {
 	if c.Tier == vf.Thorough && r.Chance(1, 10) {
 		steps = 120
 	}
+	if i%400 == 399 {
+		// a long-lived filter: state that only goes wrong after many
+		// operations (wrapping counters, caches) needs long histories
+		steps = 3000
+		c.Inc("long_histories_3000_steps")
+	}
 	// ---- initial state
 	startKind := r.Intn(10)
 	switch {
